@@ -11,6 +11,7 @@
 #include <memory>
 #include <cstdarg>
 #include <fcntl.h>
+#include <sys/stat.h>
 #include <sys/types.h>
 #include <unistd.h>
 
@@ -39,6 +40,9 @@ off64_t __real_lseek64(int, off64_t, int);
 int __real_close(int);
 int __real_fsync(int);
 int __real_fdatasync(int);
+int __real_stat(const char *, struct stat *);
+int __real_stat64(const char *, struct stat64 *);
+int __real_lstat(const char *, struct stat *);
 }
 
 namespace psv {
@@ -48,7 +52,7 @@ namespace {
 
 const int FAKE_FD_BASE = 0x3f000000;
 
-struct File { Bytes data; };
+struct File { Bytes data; uint64_t ino = 0; };
 
 struct Handle {
 	int id = 0;
@@ -824,6 +828,39 @@ int __wrap_fsync(int fd) {
 int __wrap_fdatasync(int fd) {
 	if (Handle *h = handle_of_fd(fd)) return sim_sync(*h);
 	return __real_fdatasync(fd);
+}
+// stat of a /sim path: size, regular file, and a modification time that is a function of the content (logical, no
+// clock): a caller that re-validates a cache by size and mtime sees a change exactly when the bytes changed
+static bool sim_stat_fill(const char *path, off_t &size, time_t &mtime) {
+	State &s = S();
+	auto it = s.files.find(path);
+	if (it == s.files.end()) return false;
+	size = (off_t)it->second->data.size();
+	uint64_t hsh = 1469598103934665603ULL;
+	for (uint8_t b : it->second->data) { hsh ^= b; hsh *= 1099511628211ULL; }
+	mtime = (time_t)(1000000000 + (hsh % 500000000));
+	return true;
+}
+int __wrap_stat(const char *path, struct stat *st) {
+	if (is_sim_path(path)) {
+		off_t sz; time_t mt;
+		if (!sim_stat_fill(path, sz, mt)) { errno = ENOENT; return -1; }
+		memset(st, 0, sizeof *st);
+		st->st_mode = S_IFREG | 0644; st->st_nlink = 1; st->st_size = sz; st->st_mtime = mt; st->st_ctime = mt; st->st_atime = mt; st->st_blksize = 4096; st->st_blocks = (sz + 511) / 512;
+		return 0;
+	}
+	return __real_stat(path, st);
+}
+int __wrap_lstat(const char *path, struct stat *st) { if (is_sim_path(path)) return __wrap_stat(path, st); return __real_lstat(path, st); }
+int __wrap_stat64(const char *path, struct stat64 *st) {
+	if (is_sim_path(path)) {
+		off_t sz; time_t mt;
+		if (!sim_stat_fill(path, sz, mt)) { errno = ENOENT; return -1; }
+		memset(st, 0, sizeof *st);
+		st->st_mode = S_IFREG | 0644; st->st_nlink = 1; st->st_size = sz; st->st_mtime = mt; st->st_ctime = mt; st->st_atime = mt; st->st_blksize = 4096; st->st_blocks = (sz + 511) / 512;
+		return 0;
+	}
+	return __real_stat64(path, st);
 }
 void *__wrap_realloc(void *p, size_t n) {
 	if (g_ra_armed) {
